@@ -500,6 +500,7 @@ func (h *chist) stuck(run *hx.Run) {
 		sig = "deadlock:watchlist-vs-restore-commit"
 		desc = "Store.WatchList (holds the publisher lock, wants Store.mu for the snapshot) and Restoration.Commit (holds Store.mu, wants the publisher lock in RefreshTopic) block each other forever"
 	}
+	h.stop.Store(true) // lets the observer goroutine of the abandoned history leave
 	run.Tag("conc:" + sig)
 	if sigCount[sig] < 3 {
 		run.Violate(sig, desc, lines)
